@@ -30,3 +30,30 @@ _t("C07", "Each real solve/restart is recorded through probes on _solve/step/_pa
 _t("C08", "Different call histories on the same/fresh integrator objects are executed and the captured trajectory states compared "
           "bitwise; monitor records are recomputed from the captured states.",
    "differential runtime monitoring of call histories (bitwise comparison of recorded trajectories)")
+_t("C04", "Final fields of real solves on mesh sequences are compared with exact solutions (analytic cell averages; an independent exact "
+          "Riemann solver) and the observed order / monotone error decrease is asserted; the packaged reference solutions are "
+          "compared pointwise with independent solvers.", "runtime oracle on solve results over mesh sequences + independent exact solvers")
+_t("C09", "Every outermost step() is observed, classified against the property's preconditions (recomputing the effective CFL) and "
+          "max/min/TV monotonicity asserted on the before/after data.", "always-on runtime monitor on step() with precondition classifier")
+_t("C10", "Every outermost step() is observed; where the preconditions hold (first order, Riemann flux, per/wall, uniform, SSP, CFL<=1/2, "
+          "admissible, short of vacuum) the state after the step must be finite with positive density/pressure/depth.",
+   "always-on runtime monitor on step() with precondition classifier")
+_t("C11", "Face states left behind by the real rhs are read for constant and linear data; the operator extracted from the real rhs on unit "
+          "impulses is compared with the kappa circulant; finite sub-spaces (n<=12, nx,ny<=5) enumerated completely.",
+   "runtime observation of face states + reference stencil, exhaustive over small sizes")
+_t("C12", "The real limiter functions are observed on direct hostile calls and on the pairs real MUSCL runs feed them; bounds asserted and "
+          "the same function re-invoked for symmetric/odd/homogeneous twins.", "contract-style runtime monitor on the limiter functions (direct + wrapped traffic)")
+_t("C13", "Each generated problem and its mirrored / unit-rescaled twin run through the same real code; results must be mirror images / "
+          "rescaled, bit-identical where every arithmetic step is scale covariant.", "metamorphic twin executions (reflection, power-of-4 units)")
+_t("C14", "Rolled twins on periodic meshes, exhaustive over small sizes and all shifts; 2D compared bitwise.", "metamorphic twin executions (cyclic shifts), exhaustive over small sizes")
+_t("C15", "2D problems vs transposed/reflected twins and vs the real 1D operator row by row.", "metamorphic twin executions (2D vs 1D, transposition, reflection)")
+_t("C16", "Every namedBC dispatch is observed and the returned state tested against the definitional identities; inverse construction "
+          "gives the exact expected state.", "always-on runtime monitor on namedBC + inverse-construction workload")
+_t("C17", "Round trips and every registered variable name are compared with textbook definitions over 12 decades of state values.",
+   "runtime oracle on phydata/prim2cons/cons2prim with reference definitions")
+_t("C18", "Every timestep/calc_timestep call is observed; the spectral radius is obtained numerically from the model's own consistent flux.",
+   "always-on runtime monitor on timestep with finite-difference eigenvalue oracle")
+_t("C19", "Twin discretisations with/without (counted) sources on the same field; difference of residuals must equal the sources.",
+   "differential runtime monitoring of rhs (with/without sources) + call counting")
+_t("C20", "Every outermost mesh constructor return is observed and judged; 2D connectivity cross-checked with the real first-order reconstruction.",
+   "always-on runtime monitor on mesh constructors (structural invariants)")
